@@ -15,6 +15,11 @@ def gt : P String := do
   let dv := volDG dG vm e
   pure (flist [gExtra vm e f g r, dv, rcritProposal f g dv, gcrit g r])
 
+/-- gen.rckwn f gamma dG Vm E → rcritKWN -/
+def rckwn : P String := do
+  let f ← flt; let g ← flt; let dG ← flt; let vm ← flt; let e ← flt
+  pure (fout (rcritKWN f g dG vm e))
+
 /-- gen.multi mc R dG gExtra → growthMulti -/
 def multi : P String := do
   let mc ← flt; let r ← flt; let dG ← flt; let ge ← flt
@@ -59,6 +64,7 @@ def lookupV : P String := do
 def handle (verb : String) : Option (P String) :=
   match verb with
   | "gen.gt" => some gt
+  | "gen.rckwn" => some rckwn
   | "gen.multi" => some multi
   | "gen.kwn" => some kwn
   | "gen.bin" => some bin
